@@ -49,6 +49,7 @@ BASE_MIX = {
     'set_property': 6, 'unset_property': 2, 'rename': 2, 'update_labels': 1, 'update_capacities': 1,
     'set_properties': 1, 'prop_setter': 1, 'edit_tracked': 1, 'respell_user_data': 1,
     'validate': 3, 'roundtrip': 2, 'get_sliver': 3, 'sliver_copy': 1, 'checkpoint': 1, 'diff_slivers': 2,
+    'diff_copy_edit': 1,
     'collect_authz': 2, 'collect_log': 1, 'views_readonly': 1, 'prune': 1, 'label_service_port': 1,
     # substrate flavour
     'node_add_network_service': 0.4, 'svc_add_interface': 0.8, 'add_link': 0, 'remove_link': 0,
@@ -62,6 +63,7 @@ SUBSTRATE_MIX = {
     'set_property': 5, 'unset_property': 2, 'rename': 1, 'get_sliver': 2, 'roundtrip': 2, 'views_readonly': 1,
     'validate': 1, 'add_child_interface': 4, 'remove_child_interface': 2, 'set_properties': 1,
     'checkpoint': 1, 'diff_slivers': 1, 'edit_tracked': 1, 'respell_user_data': 1, 'sliver_copy': 1,
+    'diff_copy_edit': 1,
 }
 PROP_BOOST = {
     'C07': {'add_child_interface': 8, 'remove_node': 5, 'remove_component': 5, 'failing': 6, 'connect_interface': 9,
@@ -77,7 +79,7 @@ PROP_BOOST = {
             'node_add_network_service': 5, 'svc_add_interface': 9},
     'C11': {'collect_authz': 10, 'collect_log': 5, 'add_port_mirror_service': 10, 'add_facility': 5,
             'add_network_service': 12, 'roundtrip': 3, 'label_service_port': 6, 'validate': 4, 'add_component': 14},
-    'C17': {'checkpoint': 3, 'diff_slivers': 22, 'edit_tracked': 14, 'respell_user_data': 6, 'set_property': 10, 'add_component': 12, 'remove_component': 6,
+    'C17': {'checkpoint': 3, 'diff_slivers': 22, 'diff_copy_edit': 14, 'edit_tracked': 14, 'respell_user_data': 6, 'set_property': 10, 'add_component': 12, 'remove_component': 6,
             'add_child_interface': 6, 'node_add_network_service': 8, 'node_remove_network_service': 4,
             'svc_add_interface': 6, 'remove_child_interface': 3},
     'C01': {'roundtrip': 12},
@@ -116,6 +118,7 @@ class W2World(World):
             'retain_handles': rng.random() < 0.6,
             'views_every': rng.choice([1, 3, 5, 8]),
             'avoid_known': rng.random() < 0.8,
+            'avoid_some': None if rng.random() < 0.85 else sorted(t for t in sorted(seams.avoid_set()) if rng.random() < 0.6),
             'other_graph': rng.random() < 0.5,
             'second_session': rng.random() < 0.35,
             # the topology object is an instance of a (trivial) user-defined subclass of the library's class
@@ -135,6 +138,10 @@ class W2World(World):
         self.mutations = 0
         self.failed_calls = 0
         self.avoid = seams.avoid_set() if cfg.get('avoid_known') else set()
+        if cfg.get('avoid_some') is not None:
+            # runs that do not steer around ALL recorded findings steer around some of them: a finding that is reached
+            # early and ends the run must not keep the states behind the other findings out of reach
+            self.avoid = set(t for t in seams.avoid_set() if t in cfg['avoid_some'])
         self.seam = seams.Seams(streams, stats)
         self.seam.install_uuid()
         self.scratch = self.seam.make_scratch()
@@ -290,7 +297,7 @@ class W2World(World):
             s = w2_ops.generate(self, rng, 'checkpoint', st)
             if s is not None:
                 return s
-        if self.prop in ('C08', 'C07', 'C10') and not self.avoid and rng.random() < 0.06:
+        if self.prop in ('C08', 'C07', 'C10') and 'subif_name_reuse' not in self.avoid and rng.random() < 0.06:
             seq = w2_ops.twin_port_sequence(self, rng, st, then_validate=self.prop == 'C10')
             if seq:
                 self.queue = seq[1:]
